@@ -611,7 +611,10 @@ def apalache(module, args, work, timeout_s=300):
     d = tempfile.mkdtemp(prefix='apa-', dir=work)
     shutil.copy(os.path.join(SPEC, module + '.tla'), d)
     cmd = ['timeout', str(int(timeout_s)), 'apalache-mc', 'check', '--out-dir=' + os.path.join(d, 'out'), '--run-dir=' + os.path.join(d, 'run')] + list(args) + [module + '.tla']
-    p = subprocess.run(cmd, cwd=d, capture_output=True, text=True)
+    # the parser front end litters java.io.tmpdir with SANY* directories: keep them inside the scratch copy
+    os.makedirs(os.path.join(d, 'tmp'))
+    env = dict(os.environ, TMPDIR=os.path.join(d, 'tmp'))       # its launcher makes them with `mktemp -d -t SANY...`
+    p = subprocess.run(cmd, cwd=d, capture_output=True, text=True, env=env)
     out = p.stdout + p.stderr
     shutil.rmtree(d, ignore_errors=True)
     if 'The outcome is: NoError' in out and p.returncode == 0:
